@@ -36,7 +36,13 @@ func isNilMsg(m util.Message) bool {
 func parseTotal(c *ev.Collector, t ev.Fataler, in []byte, kind string, muts []string, fatalOnHang bool) (class string) {
 	var po parseOut
 	input := append([]byte{}, in...) // Parse must not need to modify its input; keep a pristine copy for the report
-	o := guarded(func() { po.m, po.err = of.Parse(in) })
+	o := guarded(func() {
+		po.m, po.err = of.Parse(in)
+		if po.err != nil {
+			// an error is there to be shown: the stream logs every parse error with %v, and so does any caller
+			_ = fmt.Sprintf("%v", po.err)
+		}
+	})
 	rep := map[string]any{"hex": hex.EncodeToString(input), "seed_kind": kind, "mutations": muts}
 	ty := -1
 	if len(input) > 1 {
